@@ -198,6 +198,22 @@ func RunBinary(p *Plan, o ExecOpts) (*ExecOut, error) {
 		}
 	}
 
+	// 2a'. the one message users cannot sign: MsgUpdateParams must be wired to the governance module
+	// account (the application decides the authority when it provides the module), and only to it.
+	{
+		evaluations++
+		distinct["authority-wiring"] = true
+		if got, want := w.K.GetAuthority(), GovAddr(); got != want {
+			bad("authority-not-governance", "the application wires MsgUpdateParams to authority %s; the governance module account is %s, so no governance proposal can ever change the module's parameters", got, want)
+		}
+		ctx, _ := w.Base().CacheContext()
+		res := RunTx(w, ctx, &ftypes.MsgUpdateParams{Authority: GovAddr(), Params: ftypes.DefaultParams()})
+		evaluations++
+		if !res.OK() {
+			bad("update-params-unreachable", "MsgUpdateParams signed by the governance module account is refused by the application's message router: %s", res.ErrStr)
+		}
+	}
+
 	// 2b. can the answers be displayed? AutoCLI renders every response with the amino-JSON encoder
 	// driven by the registered descriptors' options; do the same, in-process, on real answers from a
 	// state holding an auction, an allow-list entry, a bid and two instalments.
